@@ -23,7 +23,7 @@ tvars == <<l, hdr, out, otags, outn, refOut, refTags, haveRef, fed, closedIn, sp
 
 NoW == [none |-> TRUE]
 TraceInit ==
-  /\ l = 1 /\ hdr = [mode |-> "none", nin |-> 0, nout |-> 0]
+  /\ l = 1 /\ hdr = [mode |-> "none", nin |-> 0, nout |-> 0, gid |-> -1]
   /\ out = <<>> /\ otags = <<>> /\ outn = <<>> /\ refOut = <<>> /\ refTags = <<>> /\ haveRef = FALSE
   /\ fed = <<>> /\ closedIn = <<>> /\ spin = 0 /\ envSince = TRUE /\ lastW = NoW /\ probe = FALSE
   /\ cprobe = FALSE
@@ -38,12 +38,13 @@ Flag(e, f) == IF Has(e, f) THEN e[f] = TRUE ELSE FALSE
 Scenario(e) ==
   /\ e.ev = "scenario"
   /\ Chk(~Has(e, "error"), "constructor")
-  /\ hdr' = IF Has(e, "error") THEN [mode |-> "none", nin |-> 0, nout |-> 0] ELSE e
+  /\ hdr' = IF Has(e, "error") THEN [mode |-> "none", nin |-> 0, nout |-> 0, gid |-> -1] ELSE e
   /\ out' = [j \in 1 .. hdr'.nout |-> <<>>] /\ otags' = [j \in 1 .. hdr'.nout |-> <<>>]
   /\ outn' = [j \in 1 .. hdr'.nout |-> <<>>]
   /\ fed' = [i \in 1 .. hdr'.nin |-> 0] /\ closedIn' = [i \in 1 .. hdr'.nin |-> FALSE]
   /\ spin' = 0 /\ envSince' = TRUE /\ lastW' = NoW /\ probe' = FALSE /\ cprobe' = FALSE
-  /\ IF hdr'.mode = "ref" \/ hdr'.mode = "none"
+  \* a reference run belongs to its scenario group only
+  /\ IF hdr'.mode = "ref" \/ hdr'.mode = "none" \/ ~Has(hdr, "gid") \/ ~Has(hdr', "gid") \/ hdr.gid # hdr'.gid
      THEN refOut' = <<>> /\ refTags' = <<>> /\ haveRef' = FALSE
      ELSE UNCHANGED <<refOut, refTags, haveRef>>
 
